@@ -7,7 +7,11 @@ LEVEL = 'proof'
 RULE = ('strings are drawn per character from weighted classes (plain, ok-punctuation, blank, single quote, sh-special, '
         'Make-special, backslash, non-ASCII word / non-word / space), lengths 0..10, plus a corpus of corner cases; '
         'a case is non-trivial when it contains at least one character outside [A-Za-z0-9_] and distinct by its exact text')
-TRUSTED = ('R model Shell/Sh.v validated against /bin/dash on this run', )
+TRUSTED = ('R model Shell/Sh.v validated against /bin/dash on this run',
+           'R models Make/MakeRead.v and Make/MakeCall.v (define bodies, $(call ...) argument splitting, binding, body expansion, '
+           'recipe lines) validated against /usr/bin/make on this run; call recipes whose command line ends in a backslash or lets $$ '
+           'reach sh are outside the validated fragment',
+           'nested test drivers: each nesting level is run by the real dash in the oracle; a one-word child is a file argument')
 EXPLANATION = ''
 
 CORPUS_WORDS = ['', "'", "''", "'''", "a'", "'a", "'a'", "a'b", "''a", "a''", "' '", "\\", "\\'", "'\\''", "$", "$$", "#",
@@ -289,7 +293,11 @@ def stage_r_make(rep, rng, n):
         if rng.random() < 0.6:
             s = s.replace('$', '$$')
         texts.append(s)
-    texts = [t for t in texts if '\n' not in t and '\0' not in t and '\r' not in t and not t.endswith('\\')]
+    # GNU Make takes ONE BYTE after an unescaped $ as the variable name: a non-ASCII character there is outside the fragment of
+    # MakeRead.expand (the writer always doubles $)
+    import re as _re
+    texts = [t for t in texts if '\n' not in t and '\0' not in t and '\r' not in t and not t.endswith('\\')
+             and not _re.search(r'(?<!\$)(\$\$)*\$[^\x00-\x7f]', t)]
     calls = [('make.assign_value', [[], t]) for t in texts]
     raw = common.model_batch(calls)
     acc = 0
@@ -412,6 +420,495 @@ def stage_oracle_cmdword(rep):
     return bad
 
 
+# ----------------------------------------------------------------------------- channel F: define + $(call ...)
+CALL_WORDS = ['a.o', 'b c.o', "it's", '$x', 'a$$b', '#h', 'f(a,b).o', '(x)', 'a,b', 'ma,in.o', 'o(ne.o', 'o)ne.o', '((', '))', ')(',
+              'a$,b', '$(,)', ',', '', ' ', '~x', '%k', 'x\\', "'", "''", 'é', 'a\xa0b', '@x', '-x', 'a=b', '$', '$,', 'a;b', 'a|b']
+
+
+def call_word_ok(w):
+    """Python twin of MakeCall.call_word_ok (the guard of C01_call_arg): non-empty, no newline, parentheses balanced,
+    no comma outside parentheses."""
+    if not w or '\n' in w:
+        return False
+    d = 0
+    for c in w:
+        if c == ',' and d == 0:
+            return False
+        if c == '(':
+            d += 1
+        elif c == ')':
+            d -= 1
+            if d < 0:
+                return False
+    return d == 0
+
+
+def call_word(rng, rep=None):
+    k = rng.random()
+    if k < 0.25:
+        return rng.choice(CALL_WORDS)
+    if k < 0.5:
+        return ''.join(rng.choice("ab,()$' \\#") for _ in range(rng.randint(1, 6)))
+    return gen.arg_string(rng, rep, maxlen=8)
+
+
+def gen_call_word(rng, writer):
+    """One argument word of a Call: (encoding as a jbos = list of frags, python object)."""
+    k = rng.random()
+    if k < 0.7:
+        s = call_word(rng)
+        return [[2, s]], s
+    if k < 0.85:
+        e, o = path_frag(rng, writer, True)
+        return [e], o
+    return gen_jbos(rng)
+
+
+def stage_w_call(rep, rng, n):
+    """W tie of channel F: Variable.use, Function.use/Call and Makefile._write_define against the extracted model."""
+    from io import StringIO
+    from bfg9000.backends.make.syntax import Makefile, Syntax, Variable, Call, Function, Silent, var
+    uw, us = gen.uni_tables()
+    calls, impl = [], []
+    mk = Makefile('build.bfg')
+    names = ['RULE_CC_LINK', 'RULE_C++', 'x', '@', '<', '1', '10', 'a b', 'a:b', 'a#b=c', 'a\tb', 'a\xa0b', 'R$', "R'", 'R,S', '']
+    for nm in names + [gen.arg_string(rng, rep, maxlen=6) for _ in range(n // 4)]:
+        if '\n' in nm:
+            continue
+        for q in (False, True):
+            calls.append(('make.var_use', [us, nm, q])); impl.append(Variable(nm, q).use().string)
+            rep.case('vu:%s:%r' % (nm, q), nontrivial(nm))
+    for i in range(n):
+        w = mk.writer(StringIO())
+        func = rng.choice(names[:2] + ['R,S', 'a b', "R'"]) if rng.random() < 0.8 else gen.arg_string(rng, rep, maxlen=6, allow_empty=False)
+        enc_args, py_args = [], []
+        for _ in range(rng.choice([0, 1, 1, 2, 2, 3])):
+            ew, pw = [], []
+            for _ in range(rng.choice([0, 1, 1, 2, 3])):
+                e, o = gen_call_word(rng, w)
+                ew.append(e); pw.append(o)
+            # a one-word argument is also passed bare (iterutils.iterate accepts both)
+            enc_args.append(ew); py_args.append(pw[0] if (len(pw) == 1 and rng.random() < 0.5) else pw)
+        try:
+            esc = w.write(Call(func, *py_args), Syntax.shell)
+            iv = (w.stream.getvalue(), bool(esc))
+        except ValueError:
+            iv = None
+        calls.append(('make.call', [uw, us, func, enc_args])); impl.append(iv)
+        rep.case('call:%s:%r' % (func, enc_args), True)
+        rep.count('call:nargs=%d' % len(enc_args))
+        if i % 4 == 0:
+            # a general Function (quoted or not, any syntax of the enclosing text)
+            w2 = mk.writer(StringIO())
+            fn = rng.choice(['patsubst', 'subst', 'wildcard', 'x'])
+            quoted = rng.random() < 0.5
+            syn = rng.choice(['shell', 'function', 'target', 'dependency', 'clean'])
+            try:
+                esc = w2.write(Function(fn, *py_args, quoted=quoted), Syntax[syn])
+                iv = (w2.stream.getvalue(), bool(esc))
+            except ValueError:
+                iv = None
+            calls.append(('make.function', [uw, us, fn, enc_args, quoted, SYN[syn]])); impl.append(iv)
+    # _write_define
+    for _ in range(n // 2):
+        lines_enc, lines_py = [], []
+        for _ in range(rng.randint(0, 3)):
+            silent = rng.random() < 0.4
+            items_enc, items_py = [], []
+            for _ in range(rng.randint(1, 4)):
+                k = rng.random()
+                if k < 0.5:
+                    s = gen.arg_string(rng, rep, maxlen=6)
+                    items_enc.append([[2, s]]); items_py.append(s)
+                elif k < 0.75:
+                    v = var(rng.choice(['1', '2', '10', 'CC', '@', '<']), rng.random() < 0.3)
+                    items_enc.append([[0, v.use().string]]); items_py.append(v)
+                else:
+                    e, o = gen_jbos(rng)
+                    items_enc.append(e); items_py.append(o)
+            lines_enc.append([silent, items_enc]); lines_py.append(Silent(items_py) if silent else items_py)
+        nm = rng.choice(['RULE_CC', 'RULE X', 'R=1'])
+        w = mk.writer(StringIO())
+        try:
+            mk._write_define(w, Variable(nm), lines_py)
+            iv = w.stream.getvalue()
+        except ValueError:
+            iv = None
+        calls.append(('make.write_define', [uw, us, nm, lines_enc])); impl.append(iv)
+        rep.case('define:%r' % (lines_enc,), True)
+
+    def dec3(name, r):
+        if name == 'make.var_use':
+            return d_str(r)
+        if name == 'make.write_define':
+            return d_opt(d_str, r)
+        return d_opt(lambda x: (d_str(x[0]), d_bool(x[1])), r)
+    rep.sample({'stage': 'W:call', 'call': calls[-1][0], 'arg': calls[-1][1]})
+    return common.compare_model(rep, 'W:make call/define', calls, impl, dec3)
+
+
+CALL_TEXT_ATOMS = ['a', 'b', 'c.o', ',', ',', '(', ')', '$,', '$$', ' ', "'", "'x y'", '\\', '$(,)', '$(1)', '$(U)', '$', '"', 'x(y,z)w']
+
+
+def stage_r_call(rep, rng, n):
+    """R validation of MakeCall.v against /usr/bin/make: (a) the body GNU Make stores for a define block, (b) the
+    command lines a recipe consisting of one $(call ...) hands to sh."""
+    from io import StringIO
+    from bfg9000.backends.make.syntax import Makefile, Variable, Silent, var
+    from bfg9000.shell import posix as pshell
+    uw, us = gen.uni_tables()
+    bad = 0
+    # (a) define blocks as bfg9000 writes them
+    defs_checked = 0
+    for _ in range(n // 3):
+        mk = Makefile('build.bfg')
+        lines = []
+        for _ in range(rng.randint(1, 3)):
+            items = [rng.choice([gen.arg_string(rng, None, maxlen=5, allow_empty=False), var('1'), var('CC'), var('@', True), 'endef', 'define'])
+                     for _ in range(rng.randint(1, 3))]
+            lines.append(Silent(items) if rng.random() < 0.3 else items)
+        w = mk.writer(StringIO())
+        try:
+            mk._write_define(w, Variable('RULE'), lines)
+        except ValueError:
+            continue
+        text = w.stream.getvalue()
+        mv = d_opt(lambda x: (d_str(x[0]), d_str(x[1])), common.model_batch([('make.parse_define', [text])])[0])
+        if mv is None or text != 'define RULE\n' + ''.join(l + '\n' for l in mv[1].split('\n') if mv[1]) + 'endef\n\n':
+            # a body line that ends or nests the define: the rest of the block is not Makefile text
+            rep.count('R:define outside fragment')
+            continue
+        rc, _, out = shtools.make_run(text + '$(info [$(value RULE)])\nall:;@:\n')
+        rv = out[1:out.rindex(']')] if rc == 0 and out.startswith('[') and ']' in out else None
+        defs_checked += 1
+        rep.case('rd:' + text, True)
+        if rv != mv[1] or mv[0] != 'RULE':
+            bad += 1
+            rep.fail('R:make_define - model and /usr/bin/make disagree on the body of %r: model %r, make %r' % (text, mv, rv),
+                     {'obligation': 'R:make_define', 'text': text, 'model': mv, 'make': rv}, found_input=False)
+    # (b) call recipes
+    body = '$(REC) L1 $(1) -- $(2)\n@$(REC) L2 \'$@\' \'$$x\' $3 $(10)'
+    head = ', := ,\nREC := %s\ndefine RULE\n%s\nendef\n' % (shtools.ARGVREC, body)
+    vars_ = [[',', ','], ['REC', shtools.ARGVREC], ['@', 'all']]
+    texts = ['a$,b,c', 'f(a,b) g,x y', "f(a$,b),'q r' $$x", 'o)ne.o,z', ' lead,trail ,', 'o(ne.o', 'a,b,c,d,e,f,g,h,i,j,k', '', ',', 'a$', "'a,b'"]
+    for _ in range(n):
+        if rng.random() < 0.5:
+            texts.append(''.join(rng.choice(CALL_TEXT_ATOMS) for _ in range(rng.randint(1, 7))))
+        else:
+            # argument text as bfg9000 writes it
+            args = [[call_word(rng) for _ in range(rng.randint(0, 3))] for _ in range(rng.randint(1, 3))]
+            texts.append(','.join(' '.join(pshell.quote(w).replace('$', '$$').replace(',', '$,') for w in a if w) for a in args))
+    texts = [t for t in texts if not any(c in t for c in '\n\r\0#')]
+    calls = [('make.recipe_call_lines', [vars_, [['RULE', body]], '$(call RULE,' + t + ')']) for t in texts]
+    raw = common.model_batch(calls)
+    ran = agreed_fail = 0
+    for t, r in zip(texts, raw):
+        lines = d_opt(lambda x: d_list(d_str, x), r)
+        rc, recs, out = shtools.make_run(head + 'all: ; $(call RULE,' + t + ')\n')
+        rv = [[shtools.ARGVREC] + x['argv'] for x in recs] if rc == 0 else None
+        rep.case('rc:' + t, True)
+        if lines is None:
+            # the model says: unterminated call (or outside the fragment); make must not run the recipe successfully with
+            # both lines delivered
+            if 'unterminated call' in out:
+                agreed_fail += 1
+            rep.count('R:call model None, make %s' % ('stops' if rc != 0 else 'runs'))
+            if rc == 0 and '(' in t and t.count('(') > t.count(')'):
+                bad += 1
+                rep.fail('R:make_call - model says unterminated call for %r, make runs it: %r' % (t, rv),
+                         {'obligation': 'R:make_call', 'args_text': t, 'make': rv}, found_input=False)
+            continue
+        if any(l.endswith('\\') or '$$' in l for l in lines):
+            # outside the validated fragment: a command line ending in a backslash continues on the next line of the
+            # define; $$ reaches sh as its process id. The writer never produces either (both characters are quoted).
+            rep.count('R:call continuation or pid')
+            continue
+        words = [dec('sh.words', x) for x in common.model_batch([('sh.words', [uw, l]) for l in lines])]
+        if any(w is None for w in words):
+            # the sh model does not cover the line (an unquoted $, an open quote): let the real dash split the command
+            # lines the Make model computed, one after the other until one fails, as Make does
+            rep.count('R:call split by dash')
+            mv = []
+            for l in lines:
+                if not l.strip():
+                    continue
+                rc_l, recs_l, _ = shtools.dash_run(l)
+                mv += [[r_['argv0']] + r_['argv'] for r_ in recs_l]
+                if rc_l != 0:
+                    break
+            else:
+                rc_l = 0
+            rv = [[shtools.ARGVREC] + x['argv'] for x in recs]
+            if (rc_l != 0) != (rc != 0):
+                mv = ('sh fails' if rc_l else 'sh succeeds', mv)
+        else:
+            mv = [w for w in words if w]
+        ran += 1
+        if rv != mv:
+            bad += 1
+            rep.fail('R:make_call - model and /usr/bin/make disagree on $(call RULE,%s): model %r, make %r' % (t, mv, rv),
+                     {'obligation': 'R:make_call', 'args_text': t, 'model': mv, 'make': rv, 'out': out[-300:]}, found_input=False)
+    rep.stage('R:make call/define', defines=defs_checked, call_texts=len(texts), compared=ran, unterminated_agreed=agreed_fail, disagreements=bad)
+
+
+def run_call_channel(words1, words2):
+    """The real writer, the real make: define RULE with two lines, a rule whose recipe is Call(RULE, words1, words2).
+    Returns (delivered argv lists or None, makefile text, make output)."""
+    from io import StringIO
+    from bfg9000.backends.make.syntax import Makefile, Call, Silent, var, qvar
+    mk = Makefile('build.bfg')
+    mk.define('RULE_X', [[shtools.ARGVREC, 'L1', var('1'), '--', var('2')], Silent([shtools.ARGVREC, 'L2', qvar('@'), var('2')])])
+    mk.rule('all', recipe=Call('RULE_X', words1, words2), phony=True)
+    o = StringIO()
+    mk.write(o)
+    rc, recs, out = shtools.make_run(o.getvalue(), 'all')
+    return ([r['argv'] for r in recs] if rc == 0 else None), o.getvalue(), out
+
+
+def stage_oracle_call(rep, rng, n):
+    """Direct check on the implementation, channel F: words passed through $(call RULE,...) by the real Makefile writer are
+    delivered by the real GNU Make + /bin/sh in the declared positions. Words outside the guard of C01_call_arg (a comma
+    outside parentheses, unbalanced parentheses) are file-name findings of C04 and are exercised there."""
+    bad = 0
+    cases = [([w], ['out']) for w in CALL_WORDS if call_word_ok(w)]
+    while len(cases) < n:
+        a = [w for w in (call_word(rng, rep) for _ in range(rng.randint(0, 3))) if call_word_ok(w) and not any(c in w for c in '\r\0')]
+        b = [w for w in (call_word(rng, rep) for _ in range(rng.randint(0, 2))) if call_word_ok(w) and not any(c in w for c in '\r\0')]
+        cases.append((a, b))
+    for a, b in cases:
+        got, text, out = run_call_channel(a, b)
+        want = [['L1'] + a + ['--'] + b, ['L2', 'all'] + b]
+        rep.case('oc:%r' % ((a, b),), any(nontrivial(w) for w in a + b))
+        rep.count('channel:call')
+        if got != want:
+            if rep.fail('Make backend, call channel: $(call RULE,%r,%r) is delivered as %r' % (a, b, got),
+                        {'channel': 'call', 'args': [a, b], 'delivered': got, 'makefile': text, 'make_output': out[-400:]}):
+                bad += 1
+    rep.stage('oracle:define+call->make->sh', cases=len(cases), failures=bad)
+    return bad
+
+
+# ----------------------------------------------------------------------------- channel N: nested test drivers
+class _MockEnv:
+    @staticmethod
+    def run_arguments(cmd, lang=None):
+        return list(cmd) if isinstance(cmd, (list, tuple)) else cmd
+
+
+class _MockDefaults:
+    def remove(self, x):
+        pass
+
+
+class _MockContext:
+    """What builtins.tests.Test.__init__ touches: env.run_arguments and build['tests'] / build['defaults']."""
+    def __init__(self):
+        from bfg9000.builtins.tests import TestInputs
+        self.env = _MockEnv()
+        self.build = {'tests': TestInputs(), 'defaults': _MockDefaults()}
+
+
+NESTED_WORDS = ['a b', "it's", '$x', 'a$$b', '$(V)', '${v}', "q'$", "'", "''", '#h', '~x', 'a,b', '(x)', '\\', 'x\\', '"q"', ' ', '', 'é',
+                'a\xa0b', '&&', ';', '*', 'A=1', '-n', '@x', '%d', '$', '$$', "'$'", "a'b'c"]
+
+
+def nested_word(rng, rep=None):
+    return rng.choice(NESTED_WORDS) if rng.random() < 0.4 else gen.arg_string(rng, rep, maxlen=6)
+
+
+def gen_test_tree(rng, depth, lead, plain=False):
+    """A tree of tests: {'words': [...python objects...], 'enc': items encoding, 'kids': [...]}. `lead`: words every command
+    starts with (the recorder, so that the oracle can run the command lines); plain: only str words."""
+    nwords = rng.choice([0, 0, 1, 1, 2, 3])
+    words, enc = list(lead), [[[2, w]] for w in lead]
+    for _ in range(nwords):
+        if plain or rng.random() < 0.8:
+            s = nested_word(rng)
+            if any(c in s for c in '\n\r\0'):
+                continue
+            words.append(s); enc.append([[2, s]])
+        else:
+            e, o = gen_jbos(rng)
+            words.append(o); enc.append(e)
+    if not words:
+        words, enc = ['w'], [[[2, 'w']]]
+    kids = []
+    if depth > 0 and rng.random() < 0.8:
+        kids = [gen_test_tree(rng, depth - 1 if rng.random() < 0.6 else 0, lead, plain) for _ in range(rng.randint(0, 3))]
+    return {'words': words, 'enc': enc, 'kids': kids}
+
+
+def build_real_tests(ctx, tree, parent=None, env=None):
+    from bfg9000.builtins.tests import TestCase, TestDriver
+    if tree['kids']:
+        t = TestDriver(ctx, list(tree['words']), **({'parent': parent} if parent else {'environment': env or {}}))
+        for k in tree['kids']:
+            build_real_tests(ctx, k, parent=t)
+    else:
+        t = TestCase(ctx, list(tree['words']), **({'driver': parent} if parent else {'environment': env or {}}))
+    return t
+
+
+def enc_tree(tree, env=None):
+    items = []
+    for k, v in (env or {}).items():
+        items.append([b for b in ([2, k] if k else None, [1, '='], [2, v] if v else None) if b])
+    return [items + tree['enc'], [enc_tree(k) for k in tree['kids']]]
+
+
+def stage_w_nested(rep, rng, n):
+    """W tie of channel N: the real tests._build_commands (TestCase/TestDriver objects on a mocked context, the real
+    Makefile writer and pshell.local_env) against MakeNested.test_recipe."""
+    from io import StringIO
+    from bfg9000.backends.make.syntax import Makefile
+    from bfg9000.builtins.tests import _build_commands
+    from bfg9000.shell import posix as pshell
+    uw, us = gen.uni_tables()
+    calls, impl = [], []
+    for _ in range(n):
+        ctx = _MockContext()
+        mk = Makefile('build.bfg')
+        trees = []
+        for _ in range(rng.randint(1, 2)):
+            tree = gen_test_tree(rng, rng.choice([0, 1, 2, 2, 3]), [])
+            env = {}
+            if rng.random() < 0.3:
+                env = {rng.choice(['VAR', 'A_1', 'x']): nested_word(rng)}
+                env = {k: v for k, v in env.items() if not any(c in v for c in '\n\r\0')}
+            build_real_tests(ctx, tree, env=env)
+            trees.append(enc_tree(tree, env))
+        try:
+            recipe, _ = _build_commands(ctx.build['tests'].tests, mk.writer, pshell.local_env)
+            lines = []
+            for cmd in recipe:
+                w = mk.writer(StringIO())
+                w.write_shell(cmd)
+                lines.append('\t' + w.stream.getvalue())
+            iv = lines
+        except ValueError:
+            iv = None
+        calls.append(('make.test_recipe', [uw, us, trees])); impl.append(iv)
+        rep.case('nest:%r' % (trees,), True)
+
+        def depth(t):
+            return 1 + max([depth(k) for k in t[1]] or [0])
+        rep.count('nested:depth=%d' % max(depth(t) for t in trees))
+    rep.sample({'stage': 'W:nested', 'arg': calls[-1][1]})
+    return common.compare_model(rep, 'W:tests._build_commands', calls, impl,
+                                lambda name, r: d_opt(lambda x: d_list(d_str, x), r))
+
+
+def check_delivery(tree, got_argv, lead_n):
+    """Does the argv a test's process received deliver the tree? Children arguments are run by the real dash, as a test
+    driver does (one-word children without tests of their own are file arguments and must arrive verbatim)."""
+    words = tree['words']
+    nk = len(tree['kids'])
+    if got_argv is None or len(got_argv) != len(words) + nk or got_argv[:len(words)] != words:
+        return 'test %r (+%d children) received %r' % (words, nk, got_argv)
+    for k, a in zip(tree['kids'], got_argv[len(words):]):
+        if len(k['words']) == 1 and not k['kids']:
+            if a != k['words'][0]:
+                return 'one-word child %r arrives as %r' % (k['words'][0], a)
+            continue
+        rc, recs, _ = shtools.dash_run(a)
+        sub = ([recs[0]['argv0']] + recs[0]['argv']) if rc == 0 and len(recs) == 1 else None
+        err = check_delivery(k, sub, lead_n)
+        if err:
+            return err + ' (command line %r)' % (a,)
+    return None
+
+
+def stage_oracle_nested(rep, rng, n):
+    """Direct check on the implementation, channel N: the real _build_commands + Makefile writer, the real make, and one
+    real dash per nesting level; every test must receive exactly its declared words."""
+    from io import StringIO
+    from bfg9000.backends.make.syntax import Makefile
+    from bfg9000.builtins.tests import _build_commands
+    from bfg9000.shell import posix as pshell
+    bad = 0
+    for i in range(n):
+        ctx = _MockContext()
+        mk = Makefile('build.bfg')
+        tree = gen_test_tree(rng, rng.choice([1, 2, 2, 3]), [shtools.ARGVREC], plain=True)
+        if i < len(NESTED_WORDS):      # every corpus word once as the argument of a leaf at depth 2
+            w = NESTED_WORDS[i]
+            tree['kids'].append({'words': [shtools.ARGVREC, 'mid'], 'enc': None,
+                                 'kids': [{'words': [shtools.ARGVREC, 'leaf', w, 'z'], 'enc': None, 'kids': []},
+                                          {'words': [w or 'solo'], 'enc': None, 'kids': []}]})
+        build_real_tests(ctx, tree)
+        recipe, _ = _build_commands(ctx.build['tests'].tests, mk.writer, pshell.local_env)
+        mk.rule('test', recipe=recipe, phony=True)
+        o = StringIO()
+        mk.write(o)
+        rc, recs, out = shtools.make_run(o.getvalue(), 'test')
+        got = ([recs[0]['argv0']] + recs[0]['argv']) if rc == 0 and len(recs) == 1 else None
+        err = check_delivery(tree, got, 1)
+
+        def strip(t):
+            return [t['words'][1:], [strip(k) for k in t['kids']]]
+        rep.case('on:%r' % (strip(tree),), True)
+        rep.count('channel:nested')
+        if err:
+            if rep.fail('Make backend, nested test drivers: ' + err,
+                        {'channel': 'nested', 'tree': strip(tree), 'makefile': o.getvalue(), 'make_output': out[-300:], 'top_argv': got}):
+                bad += 1
+    rep.stage('oracle:test drivers->make->sh^k', cases=n, failures=bad)
+    return bad
+
+
+# ----------------------------------------------------------------------------- environment values
+ENV_VALUES = ['/opt/lib:~/lib', 'a~b:~', 'x=~/y', '~', '~/x', ':~', '=~', 'a:~root', '~:~', '~root', 'a=~', ':~:', 'a:~/b:~/c', '~+', '~-',
+              'a b', "it's", '$HOME', '${HOME}', 'x#y', '#', 'a;b', 'a&&b', '*', '?', '[a]', '{a,b}', '`id`', '$(id)', '\\', 'a\\', '"q"',
+              '', ' ', '\t', 'é', 'a\xa0b', '-n', 'A=1', '%d', "'", "''", '!', '^', '|', '<x', '>x', 'a,b', '(x)', '@', '+']
+
+
+def env_value(rng, rep=None):
+    k = rng.random()
+    if k < 0.3:
+        return rng.choice(ENV_VALUES)
+    if k < 0.65:      # rich in the characters sh treats specially inside assignment words
+        return ''.join(rng.choice('~~::==/ab.') for _ in range(rng.randint(1, 7)))
+    return gen.arg_string(rng, rep, maxlen=8)
+
+
+def stage_oracle_env(rep, rng, n):
+    """Direct check on the implementation, environment values: the real pshell.global_env (export NAME=value && cmd) and
+    pshell.local_env (NAME=value cmd) written as a recipe by the real Makefile writer, run by the real make + /bin/sh;
+    the recorder reports the environment the process sees. HOME is a private value, so a tilde that sh expands (at the
+    start of the value, after an unquoted colon or equals sign) is visible."""
+    from io import StringIO
+    from bfg9000.backends.make.syntax import Makefile
+    from bfg9000.shell import posix as pshell
+    bad = 0
+    home = '/var/tmp/c01-private-home'
+    cases = [{'VAR': v} for v in ENV_VALUES]
+    while len(cases) < n:
+        e = {'VAR': env_value(rng, rep)}
+        if rng.random() < 0.4:
+            e['PATH_2'] = env_value(rng, rep)
+        cases.append(e)
+    for envd in cases:
+        if any(c in v for v in envd.values() for c in '\n\r\0'):
+            continue
+        for form in ('global_env', 'local_env'):
+            mk = Makefile('build.bfg')
+            cmd = [shtools.ARGVREC, 'x y']
+            recipe = pshell.global_env(envd, [cmd]) if form == 'global_env' else pshell.local_env(envd, cmd)
+            mk.rule('all', recipe=[recipe], phony=True)
+            o = StringIO()
+            mk.write(o)
+            rc, recs, out = shtools.make_run(o.getvalue(), 'all', envnames=tuple(envd), extra_env={'HOME': home})
+            got = {k: recs[0]['env'].get(k) for k in envd} if rc == 0 and len(recs) == 1 and recs[0]['argv'] == ['x y'] else None
+            rep.case('env:%s:%r' % (form, envd), any(nontrivial(v) for v in envd.values()))
+            rep.count('channel:env:' + form)
+            if got != envd:
+                if rep.fail('Make backend, %s: environment %r is delivered as %r' % (form, envd, got),
+                            {'channel': 'env', 'form': form, 'env': envd, 'delivered': got, 'makefile': o.getvalue(), 'make_output': out[-300:]}):
+                    bad += 1
+    rep.stage('oracle:environment values->make->sh', cases=len(cases) * 2, failures=bad)
+    return bad
+
+
 def run(rep):
     rng = random.Random(rep.seed)
     thorough = rep.tier == 'thorough'
@@ -420,9 +917,15 @@ def run(rep):
     dis = stage_w_posix(rep, rng, n)
     stage_r_dash(rep, rng, n // 2)
     dis += stage_w_make(rep, rng, n // 2)
+    dis += stage_w_call(rep, rng, n // 3)
+    dis += stage_w_nested(rep, rng, n // 3)
     stage_r_make(rep, rng, 300 if thorough else 60)
+    stage_r_call(rep, rng, 600 if thorough else 150)
     found = stage_oracle_quote(rep, rng, n // 2 * (10 if dis else 1))
     found += stage_oracle_make(rep, rng, (400 if thorough else 60) * (5 if dis else 1))
+    found += stage_oracle_call(rep, rng, (400 if thorough else 70) * (5 if dis else 1))
+    found += stage_oracle_nested(rep, rng, (300 if thorough else 50) * (5 if dis else 1))
+    found += stage_oracle_env(rep, rng, (300 if thorough else 90) * (5 if dis else 1))
     found += stage_oracle_cmdword(rep)
     from . import c06
     for i in range(12 if thorough else 2):
